@@ -9,11 +9,14 @@
 (*     which every unit carries its origin, so any displaced unit shows:    *)
 (*     the repaired code refines A everywhere, the current code refines A   *)
 (*     exactly outside the shapes of the named deviations,                  *)
-(*   - exports the document with the admissible results (spec -> code).     *)
+(*   - exports the document with the admissible results (spec -> code),     *)
+(*   - exports (once) the alphabet of carried texts: every payload of at    *)
+(*     most MaxPay units with what the inserted block must contain for it.  *)
 (***************************************************************************)
 EXTENDS DepsInsertImpl, TLC, Json, IOUtils
 
 CONSTANTS MaxLen,        \* longest document
+          MaxPay,        \* longest carried text (payload), in units
           PhVariants     \* {"one"} for the export (the variants are symmetric for layer A),
                          \* {"one", "multi"} for the comparison with layer B
 VARIABLE doc
@@ -32,6 +35,9 @@ Thm_PlaceholderEquivalence == PlaceholderEquivalence(doc)
 Thm_ZoneIsNarrow           == ZoneIsNarrow(doc)
 ASSUME Thm_TypePreserved == TypePreserved
 Thm_PassThrough            == PassThrough(doc)
+
+Thm_PayloadSitesDocumented == PayloadSitesDocumented(doc)
+ASSUME Thm_CarriedVerbatim == CarriedVerbatim(MaxPay)
 
 (* ---- layer B vs layer A on unit texts ----------------------------------- *)
 \* unit <<i, k>> = k-th unit of segment i; end tags are two units long so that an
@@ -66,6 +72,14 @@ RefinesExactlyOutsideDeviations ==
 \* not an invariant: lets TLC print the smallest counterexample of the current arithmetic
 CurrentRefines == \A mode \in Modes : UImpl(mode, {}) = UFlat(mode)
 
+\* on unit texts: wherever the specification inserts a block, the block is a contiguous sub-text of
+\* the result (so what the block carries, the result carries), under both readings of the zone
+Thm_BlocksContiguous ==
+  \A ci \in BOOLEAN :
+    LET o == Expected(doc, "document", ci)
+        flat == Flat(doc, o, UTxt, UBlk, <<>>) IN
+    \A k \in {"css", "js"} : (\E j \in DOMAIN o : o[j].k = k) => Occurs(UBlk[k], flat)
+
 (* ---- export -------------------------------------------------------------- *)
 Code(s) == CASE s.t = "txt" -> "T" [] s.t = "head" -> (IF s.v = "lc" THEN "Hl" ELSE "Hu")
              [] s.t = "body" -> (IF s.v = "lc" THEN "Bl" ELSE "Bu")
@@ -73,6 +87,14 @@ Code(s) == CASE s.t = "txt" -> "T" [] s.t = "head" -> (IF s.v = "lc" THEN "Hl" E
 Enc(out) == [j \in DOMAIN out |->
                CASE out[j].k = "seg" -> out[j].i [] out[j].k = "css" -> 0 - 1
                  [] out[j].k = "js" -> 0 - 2 [] out[j].k = "frag" -> 0 - 3]
+\* the payload alphabet: every carried text of at most MaxPay units with what the block must contain
+\* for it (written once, on the empty document)
+PayRows == {[units |-> p, carried |-> Carried(p)] : p \in PayloadsUpTo(MaxPay)}
+ExportPayloads ==
+  Len(doc) = 0 =>
+    Serialize(ToJson([payloads |-> PayRows]) \o "\n",
+              IOEnv.PAY, [format |-> "TXT", charset |-> "UTF-8",
+                          openOptions |-> <<"WRITE", "CREATE", "TRUNCATE_EXISTING">>]).exitValue = 0
 Export ==
   Serialize(ToJson([doc |-> [i \in DOMAIN doc |-> Code(doc[i])],
                     document |-> <<Enc(Expected(doc, "document", FALSE)), Enc(Expected(doc, "document", TRUE))>>,
